@@ -865,6 +865,9 @@ def check_replace_trace(req, ans):
     if ans == "PANIC":
         return "PANIC"
     parts = ans.split("|")
+    if len(parts) == 4 and parts[3].startswith("PARTIAL"):
+        return "with a Replace constructor that reads only %s of the replaced tokens the stream becomes %s" % (
+            "none" if parts[3].startswith("PARTIAL0") else "the first", parts[3].split(":", 1)[1][:300])
     if len(parts) != 3:
         return "malformed answer"
     occs = [x for x in parts[0].split(",") if x]
@@ -2012,6 +2015,22 @@ def oracle_c17(ctx, focus):
                              "val\t%s\t%s" % (lang, esc(t)), "val\t%s\t%s" % (lang, esc(w)),
                              "text\t%s\t%s\t%s" % (lang, th, esc(w))]
                     meta.append((t, w))
+        # blanks INSIDE a separator token (punctuation, blank, punctuation: `" .`, `) .`, `. "`): the kind and amount of that
+        # blank must not matter either
+        smalls_ = [p_ for p_ in bank if " " not in p_][:30] or bank[:5]
+        for p1 in ('"', ")", "]", "!", ",", "\u00bb", "\u201d", "-", "("):
+            for p2 in (".", ",", "!"):
+                for (x1, x2) in ((p1, p2), (p2, p1)):
+                    for blank in ("\t", "\u00a0", "\u2009", "  ", "\n", " \u00a0", "\u3000"):
+                        a_, b_ = rng.choice(smalls_), rng.choice(smalls_)
+                        for (l_, r_) in ((" ", " "), ("", " ")):
+                            t = a_ + l_ + x1 + " " + x2 + r_ + b_
+                            w = a_ + (blank if l_ else "") + x1 + blank + x2 + (blank if r_ else "") + b_
+                            th = rng.choice(thrs)
+                            reqs += ["occ\t%s\t%s\t%s" % (lang, th, esc(t)), "occ\t%s\t%s\t%s" % (lang, th, esc(w)),
+                                     "val\t%s\t%s" % (lang, esc(t)), "val\t%s\t%s" % (lang, esc(w)),
+                                     "text\t%s\t%s\t%s" % (lang, th, esc(w))]
+                            meta.append((t, w))
         # a blank run of every mined size (srcmine.py) INSIDE a spelled number, between two numbers and at the edges
         multi_ = [p_ for p_ in bank if " " in p_][:: max(1, len(bank) // 6)][:6] or bank[:2]
         for z in _srcmine.sizes(41, 70000):
@@ -2138,6 +2157,10 @@ def oracle_c18(ctx, focus):
         if "o" not in seq and "O" not in seq:
             seq[rng.below(k)] = "o"
         texts.append(seq)
+    # an `o` after z ordinary words, z a size mined from the source (srcmine.py): the neighbour rule far from the start of the text
+    for z in _srcmine.sizes(41, 300000):
+        for tail in (["my", "name", "is", "o", "s", "c", "a", "r"], ["x", "o,", "y"], ["five", "o", "x"], ["x", "o", "twenty"]):
+            texts.append(["word"] * z + tail)
     reqs, meta = [], []
     for seq in texts:
         wsk = rng.choice(wss)
